@@ -98,7 +98,7 @@ def rf_env(rustflags):
         return None, ""
     env = dict(ENV)
     env["RUSTFLAGS"] = rustflags
-    return env, "-rf" + hashlib.sha1(rustflags.encode()).hexdigest()[:6]
+    return env, "-rf"   # one directory whatever the flags are: cargo rebuilds when RUSTFLAGS change, disk use stays bounded
 
 
 def run_kani(crate, harnesses, cbmc_args=(), kani_args=(), jobs=None, harness_timeout=600, mem_gb=14,
